@@ -86,7 +86,7 @@ func c20Enum(thorough bool) mc.Enum {
 	if thorough {
 		maxLen = 5
 	}
-	e := mc.Enum{Prop: "C20", Name: "C20/paths", Cfg: world.Config{Accounts: []string{"O"}}, ConfirmB: false, ConfB: 12}
+	e := mc.Enum{Prop: "C20", Name: "C20/paths", Cfg: world.Config{Accounts: []string{"O", "E"}}, ConfirmB: false, ConfB: 12}
 	for _, first := range c20Sigma {
 		first := first
 		e.Cases = append(e.Cases, mc.Case{Desc: fmt.Sprintf("seqs-starting-with|%q|maxlen=%d", first, maxLen), Run: func(env world.Env) mc.CaseResult {
@@ -144,18 +144,23 @@ func c20Enum(thorough bool) mc.Enum {
 		for _, c2 := range chainSigma {
 			c1, c2 := c1, c2
 			e.Cases = append(e.Cases, mc.Case{Desc: fmt.Sprintf("chain|s/%s/%s/*", c1, c2), Run: func(env world.Env) mc.CaseResult {
-				return c20Chain(env, c1, c2, chainSigma)
+				return c20Chain(env, c1, c2, chainSigma, "O")
+			}})
+			// the same chain posted by a second account that holds edit access, into the owner's tree
+			e.Cases = append(e.Cases, mc.Case{Desc: fmt.Sprintf("chain-by-editor|s/%s/%s/*", c1, c2), Run: func(env world.Env) mc.CaseResult {
+				return c20Chain(env, c1, c2, chainSigma, "E")
 			}})
 		}
 	}
 	return e
 }
 
-func c20Chain(env world.Env, c1, c2 string, sigma []string) mc.CaseResult {
+func c20Chain(env world.Env, c1, c2 string, sigma []string, poster string) mc.CaseResult {
 	w := env.W()
 	o := w.A("O").Bech
-	cr := mc.CaseResult{Class: "chain"}
-	ed := jmap(map[string]string{ftEditorID(c10Track, o): "k"})
+	by := w.A(poster).Bech
+	cr := mc.CaseResult{Class: "chain-by-" + poster}
+	ed := jmap(map[string]string{ftEditorID(c10Track, o): "k", ftEditorID(c10Track, by): "k"})
 	vi := jmap(map[string]string{ftViewerID(c10Track, o): "k"})
 	if r := env.Deliver(fttypes.NewMsgProvisionFileTree(o, ed, vi, c10Track)); !r.OK() {
 		cr.Viols = append(cr.Viols, viol("harness", "provision", "provision failed: %v", r.Err))
@@ -164,7 +169,7 @@ func c20Chain(env world.Env, c1, c2 string, sigma []string) mc.CaseResult {
 	post := func(parentPlain, child string) {
 		cr.Count++
 		cr.NontrivialCount++
-		res := env.Deliver(fttypes.NewMsgPostFile(o, ftAcct(o), fttypes.MerklePath(parentPlain), hexsha(child), "c", vi, ed, c10Track))
+		res := env.Deliver(fttypes.NewMsgPostFile(by, ftAcct(o), fttypes.MerklePath(parentPlain), hexsha(child), "c", vi, ed, c10Track))
 		plain := parentPlain + "/" + child
 		if !res.OK() {
 			cr.Viols = append(cr.Viols, viol("post-under-own-folder-accepted", "rejected", "posting %q failed: %v", plain, res.Err))
@@ -194,7 +199,7 @@ func c20Chain(env world.Env, c1, c2 string, sigma []string) mc.CaseResult {
 func init() {
 	CaseReplayers["C20/paths"] = func(r *mc.Run, c string) { r.ReplayCase(c20Enum(strings.Contains(c, "maxlen=5")), c) }
 	Props["C20"] = Prop{Level: "exploration", Run: func(r *mc.Run, tier string) {
-		r.Rules = append(r.Rules, "every segment sequence of length 1..4 (thorough: 5) over {\"\",a,b,ab,é (precomposed),é (e + combining accent),space,s,home,.,..,300-byte}: MerklePath vs an independent fold, trailing-slash neutrality, child = AddToMerkle(parent, sha256(child)), pairwise-distinct addresses; paths of every depth 1..260; plus 216 folder chains of depth 3 posted through the real ProvisionFileTree/PostFile handlers. Non-trivial = sequences with >= 2 segments / posts")
+		r.Rules = append(r.Rules, "every segment sequence of length 1..4 (thorough: 5) over {\"\",a,b,ab,é (precomposed),é (e + combining accent),space,s,home,.,..,300-byte}: MerklePath vs an independent fold, trailing-slash neutrality, child = AddToMerkle(parent, sha256(child)), pairwise-distinct addresses; paths of every depth 1..260; plus 216 folder chains of depth 3 posted through the real ProvisionFileTree/PostFile handlers, by the owner and by a second account holding edit access. Non-trivial = sequences with >= 2 segments / posts")
 		r.Assumptions = append(r.Assumptions, "SHA-256 collision freedom", "parents ending in '/' and empty or '/'-containing last segments are unspecified (the statement's clauses conflict there)")
 		r.AddEnum(c20Enum(tier == "thorough"), workers(), time.Time{})
 	}}
